@@ -160,6 +160,29 @@ class RenderMonitor(Monitor):
                 ctx.violation("extension", f"{n}: extend_duration({ext}) raised {e!r}", "extension-raises")
             if c["dmm"] or c["addr"] == "Local" or c["eom_off"]:
                 nontrivial = True
+        # ---- sampling with an extended duration: every channel is padded to it (also when it is exactly the
+        #      sequence's own duration, which only the longest channel has) ------------------------------------------
+        for X in (T, T + 1 + ctx.case_idx % 5):
+            if X <= 0:
+                continue
+            try:
+                smx = sample(seq, extended_duration=X)
+            except Exception as e:
+                ctx.violation("extension", f"sample(seq, extended_duration={X}) raised {type(e).__name__}: {str(e)[:160]}",
+                              "extension-raises:sample")
+                break
+            for n, c in by_name.items():
+                cs, cx = sm.channel_samples[n], smx.channel_samples[n]
+                ea, ed, ep = render.pad(arr(cs.amp), arr(cs.det), arr(cs.phase), X, c["eom_off"])
+                ctx.count("extended_samplings_checked")
+                if c["end"] < X == T:
+                    ctx.count("extended_to_sequence_duration_shorter_channel")
+                for nm, got, want in (("amp", arr(cx.amp), ea), ("det", arr(cx.det), ed), ("phase", arr(cx.phase), ep)):
+                    if len(got) != X or not np.allclose(got, want, atol=1e-12, rtol=0, equal_nan=True):
+                        ctx.violation("extension", f"{n}: sample(seq, extended_duration={X}) gives {nm} of length {len(got)} "
+                                      f"(channel ends at {c['end']}, sequence at {T}); padding rule gives length {len(want)}",
+                                      "extension-sample-" + nm)
+                        break
         # ---- per-atom, per-basis view --------------------------------------------------------
         if seq.is_register_mappable():
             return
